@@ -95,6 +95,12 @@ def scripts(ln, nn, kind, seed):
     cf = A.context_free(ln, nn)
     tree = nn == "tree"
     x, q = (XT, QT) if tree else (X2, Q2)
+    if ln in ("lts", "lts1") and nn == "none" and kind == "global":
+        # ill-conditioned on purpose (identical columns, magnitude 1e6): whatever the library does when the sampling
+        # covariance is not positive definite - raise, or fall back - must not involve process-wide generators
+        m_ = 1e6
+        x = [[m_ * (i + 1), m_ * (i + 1), 2 * m_ * (i + 1)] for i in range(6)]
+        q = [[m_, 2 * m_, 3 * m_], [3 * m_, m_, m_], [2 * m_, 2 * m_, m_]]
     lp_s, np_s = tuples(ln, nn, default=(kind == "default"))
     lp_i = np_i = None
     icf, ix = cf, x
@@ -171,7 +177,10 @@ def run_merge(ln, nn, kind, seed, merge):
     for c in merge:
         ops.COUNTERS["transitions"] += 1
         if c == "S":
-            outs.append(ops.norm(S[si]()))
+            try:
+                outs.append(ops.norm(S[si]()))
+            except Exception as e:                            # noqa: BLE001  (an exception is an output, too)
+                outs.append({"__exc__": type(e).__name__})
             si += 1
         else:
             try:
